@@ -137,9 +137,10 @@ def make_ground (spec0):
         if n >= 3 and rng.random () < 0.3:
             g ['taper'] = [int (rng.choice ([1, 2, 3])), None, None]
         geo.append (g)
-    geo.append (gen.wire (2, [5e3, 0, 5.0], [5e3 + 1, 0, 5.0], 1e-3, tag = nobj + 1))
     tr = []
+    helper = gen.wire (2, [5e3, 0, 5.0], [5e3 + 1, 0, 5.0], 1e-3, tag = nobj + 1)      # (the object with the highest tag is not judged)
     if rng.random () < 0.4:
+        helper ['tag'] = nobj + 3
         # an arc that touches the plane: half loop on both feet, quarter arc on one foot, circle lifted by its radius
         # (its lowest segment end on the plane), turned about the vertical axis and shifted
         Ra   = float (10 ** rng.uniform (-0.3, 1.0))
@@ -156,7 +157,8 @@ def make_ground (spec0):
             tr.append (['translate', 1.0, [0.0, 0.0, Ra], nobj + 2])
         tr.append (['rotate', 2.0, [0.0, 0.0, float (np.round (rng.uniform (-180, 180), 1))], nobj + 2])
         tr.append (['translate', 3.0, [float (np.round (rng.uniform (-30, 30), 2)) - 200.0, float (np.round (rng.uniform (-30, 30), 2)), 0.0], nobj + 2])
-    return dict (f = 7.0, geo = geo, tr = tr, sc = [], media = [[0, 0, 0]], src = [dict (p = [1, nobj + 1], v = [1, 0])], loads = [], ground_ends = True)
+    geo.append (helper)
+    return dict (f = 7.0, geo = geo, tr = tr, sc = [], media = [[0, 0, 0]], src = [dict (p = [1, helper ['tag']], v = [1, 0])], loads = [], ground_ends = True)
 # end def make_ground
 
 def lengths (segs):
